@@ -537,4 +537,4 @@ def case_strategy(draw):
 
 def search(ctx):
     thorough = ctx.tier == "thorough"
-    ctx.hypothesis(case_strategy(), 4000 if thorough else 2000)
+    ctx.hypothesis(case_strategy(), 12000 if thorough else 2000)
